@@ -194,11 +194,11 @@ class Model:
         c = self.cls(o)
         A = o.attrs if isinstance(o, Obj) else {}
         if c == "ZeroBaseForm":
-            sp = tuple(self.W.call_method(a, "ufl_function_space") for a in A["_arguments"])
+            sp = tuple(self.W.call_method(a, "ufl_function_space") for a in self.W.call_method(o, "arguments"))
             return T.zero(tuple(self.dim(s) for s in sp)), sp
         if c == "Form":
             acc, sp0 = None, None
-            for itg in A["_integrals"]:
+            for itg in self.W.call_method(o, "integrals"):
                 i = self.W.call_method(itg, "integrand")
                 for coef, name in i.attrs["_terms"]:
                     shape, sp = self.form_names[name]
@@ -210,19 +210,19 @@ class Model:
             return acc, sp0
         if c == "FormSum":
             acc, sp0 = None, None
-            for comp, w in zip(A["_components"], A["_weights"]):
+            for comp, w in zip(self.W.call_method(o, "components"), self.W.call_method(o, "weights")):
                 t, sp = self.den(comp)
                 t = t.map(lambda v, w=w: sym.mul(sym.lift(w), v))
                 acc = t if acc is None else uflsem.t_add(acc, t)
                 sp0 = sp0 or sp
             return acc, sp0
         if c == "Adjoint":
-            t, sp = self.den(A["_form"])
+            t, sp = self.den(self.W.call_method(o, "form"))
             if len(t.shape) != 2:
                 raise LiftRaise("ValueError: Adjoint of something that is not a 2-form was built")
             return T((t.shape[1], t.shape[0]), (), (), {((j, i), ()): v for ((i, j), _), v in t.data.items()}), (sp[1], sp[0])
         if c == "Action":
-            return self.contract(self.den(A["_left"]), self.den(A["_right"]))
+            return self.contract(self.den(self.W.call_method(o, "left")), self.den(self.W.call_method(o, "right")))
         if c in ("Argument", "Coargument"):
             raise Unsupported("an argument as a denotation")
         raise Unsupported(f"denotation of {c}")
@@ -388,15 +388,17 @@ def run(ctx) -> Report:
     n_map = 0
     # sums with several components first (weights that can be misaligned), distinct weights preferred; a few single-component ones
     # (components that map_integrands maps as a whole: it descends into Adjoint / Action / nested sums)
-    whole = lambda fs_: all(Mo.cls(c_) in ("Matrix", "Cofunction", "Form", "ZeroBaseForm") for c_ in fs_.attrs["_components"])  # noqa: E731
+    comps_of = lambda fs_: list(W.call_method(fs_, "components"))  # noqa: E731
+    weights_of = lambda fs_: list(W.call_method(fs_, "weights"))  # noqa: E731
+    whole = lambda fs_: all(Mo.cls(c_) in ("Matrix", "Cofunction", "Form", "ZeroBaseForm") for c_ in comps_of(fs_))  # noqa: E731
     sums = [x for x in sums if whole(x[1])]
-    multi = [x for x in sums if len(x[1].attrs["_components"]) >= 2 and len({id(c_) for c_ in x[1].attrs["_components"]}) == len(x[1].attrs["_components"])]
-    multi.sort(key=lambda x: (-len(set(map(repr, x[1].attrs["_weights"]))), -len(x[1].attrs["_components"])))
-    sums = multi[:40] + [x for x in sums if len(x[1].attrs["_components"]) < 2][:6]
+    multi = [x for x in sums if len(comps_of(x[1])) >= 2 and len({id(c_) for c_ in comps_of(x[1])}) == len(comps_of(x[1]))]
+    multi.sort(key=lambda x: (-len(set(map(repr, weights_of(x[1])))), -len(comps_of(x[1]))))
+    sums = multi[:40] + [x for x in sums if len(comps_of(x[1])) < 2][:6]
     if len(multi) < 10:
         raise AnalysisError(f"only {len(multi)} sums with several components in the family")
     for n, fs in sums:
-        comps = list(fs.attrs["_components"])
+        comps = comps_of(fs)
         for mode in ("identity", "annihilate first", "annihilate last", "annihilate all but last", "swap atoms"):
             def fn(x, mode=mode, comps=comps):
                 if isinstance(x, Obj) and x.kind == "integrand":
@@ -411,7 +413,7 @@ def run(ctx) -> Report:
 
             try:
                 want = None
-                for comp, wgt in zip(comps, fs.attrs["_weights"]):
+                for comp, wgt in zip(comps, weights_of(fs)):
                     t, sp = Mo.den(comp if Mo.cls(comp) == "Form" else fn(comp))
                     t = t.map(lambda v, wgt=wgt: sym.mul(sym.lift(wgt), v))
                     want = t if want is None else uflsem.t_add(want, t)
